@@ -73,6 +73,9 @@ class FuncSummary:
         self.unknown_calls: List[ast.Call] = []
         self.global_decl: Set[str] = set()
         self.local_roots: Dict[str, Set[Tuple[str, str]]] = {}
+        # writes that go *through the value of* a field of self (self.f.append(..), self.f[k] = v, self.f.x = v): in a constructor the
+        # value of a dataclass field is the caller's argument, not part of the fresh object
+        self.field_writes: List[Tuple[str, ast.AST, str]] = []
 
 
 class Effects:
@@ -268,6 +271,46 @@ class Effects:
             cur = par
         return False
 
+    def _self_field(self, fs: FuncSummary, e: ast.AST, depth: int = 0) -> Optional[str]:
+        """the field f if `e` denotes the *value of* self.f (or something reached through it); follows one rebinding
+        `self.f = self.g.x` inside the same function (then the value belongs to field g)."""
+        if not fs.params or fs.params[0] not in ("self",):
+            return None
+        chain = []
+        cur = e
+        while isinstance(cur, (ast.Attribute, ast.Subscript)):
+            if isinstance(cur, ast.Attribute):
+                chain.append(cur.attr)
+            cur = cur.value
+        if not (isinstance(cur, ast.Name) and cur.id == fs.params[0]) or not chain:
+            return None
+        field = chain[-1]
+        if depth < 3:
+            for n in walk_local(fs.node):
+                if isinstance(n, ast.Assign) and any(isinstance(t, ast.Attribute) and norm(t) == f"{fs.params[0]}.{field}" for t in n.targets):
+                    unconditional = n in fs.node.body and n.lineno <= getattr(e, "lineno", 10 ** 9)
+                    inner = self._self_field(fs, n.value, depth + 1)
+                    if inner is not None and inner != field and unconditional:
+                        return inner
+                    if inner is None and unconditional and not (isinstance(n.value, ast.Name) and n.value.id in fs.params):
+                        return None  # unconditionally rebound, before the write, to something created here
+        return field
+
+    def _ctor_field_order(self, cls: str) -> List[str]:
+        out: List[str] = []
+        for c in reversed(self.repo.mro(cls)):
+            ci = self.repo.classes.get(c)
+            if ci is None:
+                continue
+            for s_ in ci.node.body:
+                if isinstance(s_, ast.AnnAssign) and isinstance(s_.target, ast.Name):
+                    if isinstance(s_.value, ast.Call) and dotted(s_.value.func) == "field" and any(
+                            k.arg == "init" and isinstance(k.value, ast.Constant) and k.value.value is False for k in s_.value.keywords):
+                        continue
+                    if s_.target.id not in out:
+                        out.append(s_.target.id)
+        return out
+
     def _enclosing_def(self, fs: FuncSummary, name: str) -> Optional[str]:
         """qualname of a function `name` defined in an enclosing function scope."""
         q = fs.qual
@@ -286,6 +329,7 @@ class Effects:
     def _analyse(self, fs: FuncSummary):
         node = fs.node
         fs.writes, fs.calls, fs.unknown_calls, fs.local_roots = [], [], [], {}
+        fs.field_writes = []
         fs.assigned = set()
         for n in walk_local(node):
             if isinstance(n, ast.Name) and isinstance(n.ctx, (ast.Store, ast.Del)):
@@ -354,6 +398,9 @@ class Effects:
                     for r in self._roots_of(fs, t.value):
                         if r[0] != "fresh" and not _is_elem(r):
                             fs.writes.append((r, n, how))
+                    fld = self._self_field(fs, t.value)
+                    if fld is not None:
+                        fs.field_writes.append((fld, n, how))
                 elif isinstance(t, ast.Name) and t.id in fs.global_decl:
                     fs.writes.append((("global", t.id), n, "global rebinding"))
             if isinstance(n, ast.Call):
@@ -468,6 +515,9 @@ class Effects:
                     for r in recv_roots:
                         if r[0] != "fresh" and not _is_elem(r):
                             fs.writes.append((r, c, f"mutator .{meth}()"))
+                    fld = self._self_field(fs, recv)
+                    if fld is not None:
+                        fs.field_writes.append((fld, c, f"mutator .{meth}()"))
                 return
             if tknown:
                 # receiver has a known non-eyecite type (builtin / third-party): method-table semantics
@@ -475,6 +525,9 @@ class Effects:
                     for r in recv_roots:
                         if r[0] != "fresh" and not _is_elem(r):
                             fs.writes.append((r, c, f"mutator .{meth}()"))
+                    fld = self._self_field(fs, recv)
+                    if fld is not None:
+                        fs.field_writes.append((fld, c, f"mutator .{meth}()"))
                 return
             cands = self.methods.get(meth, [])
             if cands and meth not in ("get", "update", "items", "keys", "values", "append", "pop", "strip", "lower", "upper", "replace", "split", "join", "format", "startswith", "endswith", "isdigit"):
@@ -485,6 +538,9 @@ class Effects:
                 for r in recv_roots:
                     if r[0] != "fresh" and not _is_elem(r):
                         fs.writes.append((r, c, f"mutator .{meth}()"))
+                fld = self._self_field(fs, recv)
+                if fld is not None:
+                    fs.field_writes.append((fld, c, f"mutator .{meth}()"))
             return
         fs.unknown_calls.append(c)
 
@@ -707,6 +763,21 @@ class Effects:
                         is_ctor = t.endswith(".__init__") or t.endswith(".__post_init__")
                         static = self._is_static(cs)
                         clsm = self._is_classmethod(cs)
+                        if is_ctor and cs.field_writes:
+                            cls_name = t.split(".")[1]
+                            # the class actually constructed at this call (a subclass may add fields): use the callee's class order
+                            built = dotted(call.func).split(".")[-1] if dotted(call.func) else cls_name
+                            order = self._ctor_field_order(built if built in self.repo.classes else cls_name)
+                            for fld, wnode, how in cs.field_writes:
+                                rr = kwroots.get(fld)
+                                if rr is None and fld in order and order.index(fld) < len(argroots):
+                                    rr = argroots[order.index(fld)]
+                                for r2 in rr or []:
+                                    if r2 and r2[0] != "fresh":
+                                        item = (_real(r2), t, getattr(wnode, "lineno", 0), f"{how} (through constructor argument `{fld}`)")
+                                        if item not in cur:
+                                            cur.add(item)
+                                            changed = True
                         for (root, origin, line, how) in list(self.tw[t]):
                             new = None
                             if root[0] == "global":
